@@ -81,7 +81,21 @@ func c09Check(c c09Case) vfResult {
 			}
 		}
 	}
-	if r.Err == nil && len(full) > 0 && (r.Hash%4 == 0 || len(full) > 2500) {
+	if r.Err == nil && len(full) > 0 && (r.Hash%12 == 0 || len(full) > 2500) {
+		// route (d): let the first read end exactly where the longest complete JSON value ends
+		vfRouteCut = 0
+		for k := len(full) - 1; k > 0; k-- {
+			if full[k-1] == ']' || full[k-1] == '}' {
+				if member, _ := vfJSONRef(full[:k], false); member {
+					vfRouteCut = k
+					break
+				}
+			}
+			if len(full)-k > 64 {
+				break
+			}
+		}
+		defer func() { vfRouteCut = 0 }()
 		if err := vfRoutes(full, c.Limit, vfDetectAt(full, c.Limit)); err != nil {
 			r.Err = fmt.Errorf("%v; input %s", err, vfQ(full))
 		}
@@ -174,7 +188,7 @@ func c09Enumerate(t *testing.T, c09Alphabet []byte, maxLen int, onlyOpening bool
 var c09MutBytes = []byte{'[', ']', '{', '}', '"', ':', ',', ' ', '\\', 'n', 'u', 't', 'f', '1', '-', '.', 'e', 'a', '\n', 0x00, 0xff, '0'}
 
 func c09GenMutant(t *rapid.T) c09Case {
-	if rapid.IntRange(0, 15).Draw(t, "long") == 0 {
+	if rapid.IntRange(0, 39).Draw(t, "long") == 0 {
 		// a complete document, white space up to somewhere behind the default limit, then garbage
 		// (or nothing); examined with a raised limit through every route
 		doc := []byte(jGenDoc(t, 3).String())
@@ -184,6 +198,13 @@ func c09GenMutant(t *rapid.T) c09Case {
 		}
 		doc = append(doc, rapid.SampledFrom([]string{"", "}}]", "{\"b\":2}", "x", ",", "]"}).Draw(t, "garbage")...)
 		return c09Case{H: doc, Limit: rapid.SampledFrom([]uint32{0, uint32(len(doc) + 1), 8192, 16384, uint32(len(doc)), 3072, 4096}).Draw(t, "longlim")}
+	}
+	if rapid.IntRange(0, 99).Draw(t, "deepgarbage") == 0 {
+		// more than 4096 open containers, then something that is not JSON; limit = len (truncated mode)
+		shape := rapid.SampledFrom([]string{"[", "{\"k\":", "[ ", "[{\"k\":"}).Draw(t, "dshape")
+		doc := []byte(strings.Repeat(shape, rapid.IntRange(4090, 5200).Draw(t, "ddepth")))
+		doc = append(doc, rapid.SampledFrom([]string{"}}}} this : is , not ] json", "]]]]x", " , , ,", "\"unterminated", "1 2 3", ""}).Draw(t, "dgarbage")...)
+		return c09Case{H: doc, Limit: rapid.SampledFrom([]uint32{uint32(len(doc)), 0, uint32(len(doc) + 1), uint32(len(doc) - 3)}).Draw(t, "dlim")}
 	}
 	if rapid.IntRange(0, 19).Draw(t, "tarwin") == 0 {
 		// an array whose item separator / a number sits at offsets 148..155, in a document >= 512 bytes
@@ -265,6 +286,6 @@ func TestVerif_C09(t *testing.T) {
 		return
 	}
 	if vfOnlySub("mut") {
-		vfRun(t, vfSub[c09Case]{Prop: "C09", Name: "mut", Checks: vfN(150000, 16000000), Gen: c09GenMutant, Check: c09Check})
+		vfRun(t, vfSub[c09Case]{Prop: "C09", Name: "mut", Checks: vfN(60000, 12000000), Gen: c09GenMutant, Check: c09Check})
 	}
 }
